@@ -253,7 +253,7 @@ def _check_outcome(case, out, what):
         if not exp_err:
             return 'spurious-error', '%s raised %s: %s although no worker failed' % (what, out.get('etype'), out.get('msg'))
         acc = ACCIDENTAL & set(out.get('mro') or [out.get('etype')])
-        if acc:
+        if acc and case['ncpu'] >= 1:      # an illegal worker count is outside the quantifier: any exception is a rejection
             return 'accidental-error', '%s ended with %s: %s — an accident of the implementation, not a reported worker failure' % (
                 what, out.get('etype'), out.get('msg'))
         return None
